@@ -150,6 +150,26 @@ class Mov2(ArmInstruction):
 Mov2LS = inter_twine(Mov2, "ls")
 
 
+class Mvn(ArmInstruction):
+    """Move the bitwise inverse of a register to a register"""
+
+    rd = Operand("rd", ArmRegister, write=True)
+    rm = Operand("rm", ArmRegister, read=True)
+    shift = Operand("shift", shift_modes)
+    syntax = Syntax(["mvn", " ", rd, ",", " ", rm, shift])
+    patterns = {
+        "cond": AL,
+        "opcode": 0b0001111,
+        "S": 0,
+        "rn": 0,
+        "rd": rd,
+        "shift_imm": 0,
+        "shift_typ": 0,
+        "b4": 0,
+        "rm": rm,
+    }
+
+
 class Cmp1(ArmInstruction):
     """CMP Rn, imm"""
 
@@ -1481,12 +1501,22 @@ def pattern_neg32(context, tree, c0):
 
 @arm_isa.pattern("reg", "INVI32(reg)", size=4)
 @arm_isa.pattern("reg", "INVU32(reg)", size=4)
+@arm_isa.pattern("reg", "INVI16(reg)", size=4)
+@arm_isa.pattern("reg", "INVU16(reg)", size=4)
 def pattern_inv32(context, tree, c0):
     d = context.new_reg(ArmRegister)
-    context.move(R1, c0)
-    context.emit(Bl("__inv32"))
-    context.move(d, R0)
+    context.emit(Mvn(d, c0, NoShift()))
     return d
+
+
+@arm_isa.pattern("reg", "INVI8(reg)", size=8)
+@arm_isa.pattern("reg", "INVU8(reg)", size=8)
+def pattern_inv8(context, tree, c0):
+    d = context.new_reg(ArmRegister)
+    context.emit(Mvn(d, c0, NoShift()))
+    d2 = context.new_reg(ArmRegister)
+    context.emit(AndImm(d2, d, 0xFF))
+    return d2
 
 
 # TODO: Do that here, or in irdag?
